@@ -275,36 +275,32 @@ theorem insertDeriv_wf_partial (p d : ObjDump) (key : String) (ov : Bool) (r : O
   have hdb : bodyOk d.body false = true := bodyOk_false_of ((wf_iff d).1 hd).1
   have hok' : (classInfo p.body.cls).derivsOk = true := by simpa using hok
   have hn' : p.body.numer = d.body.numer := by simpa using hn
-  split at h
-  · cases h
-  · rename_i d3 hd3
-    cases h
-    apply store_deriv_wf p _ key hp hok'
-    split at hd3
-    · -- read-only parent, writable derivative: the clone is made read-only
-      rename_i hro
-      simp only [cloneBare, bare, bodyReadonly, Bool.and_eq_true, Bool.not_eq_true'] at hro
-      have hs' : (bodyReadonly d.body).shape = p.body.shape := by
-        unfold bodyReadonly; split <;> simp [hs]
-      simp only [cloneBare, bare, hs', bne_self_eq_false, Bool.false_eq_true, ↓reduceIte, Option.some.injEq] at hd3
-      subst hd3
-      have hb := bodyReadonly_ok (h := false) hdb
-      simp only [derivOk, cloneBare, bare, Bool.and_eq_true, beq_iff_eq, List.isEmpty_nil, Bool.or_eq_true,
-        Bool.not_eq_true']
-      refine ⟨⟨⟨⟨⟨⟨?_, hs'⟩, ?_⟩, trivial⟩, trivial⟩, ?_⟩, hb⟩
-      · unfold bodyReadonly; split <;> simp [hf]
-      · unfold bodyReadonly; split <;> simp [hn']
-      · right; unfold bodyReadonly; split <;> simp_all
-    · rename_i hro
-      simp only [cloneBare, bare, hs, bne_self_eq_false, Bool.false_eq_true, ↓reduceIte, Option.some.injEq] at hd3
-      subst hd3
-      simp only [derivOk, cloneBare, bare, Bool.and_eq_true, beq_iff_eq, List.isEmpty_nil, Bool.or_eq_true,
-        Bool.not_eq_true']
-      refine ⟨⟨⟨⟨⟨⟨hf, hs⟩, hn'.symm⟩, trivial⟩, trivial⟩, ?_⟩, hdb⟩
-      simp only [cloneBare, bare, Bool.and_eq_true, Bool.not_eq_true', not_and, Bool.not_eq_false] at hro
-      cases hr : p.body.readonly
-      · exact Or.inl rfl
-      · exact Or.inr (hro hr)
+  have e2 : (if ((cloneBare d).body.shape != p.body.shape) = true then broadcastTo (cloneBare d) p.body.shape
+      else some (cloneBare d)) = some (cloneBare d) := by
+    simp [cloneBare, bare, hs]
+  rw [e2] at h
+  simp only [Option.some.injEq] at h
+  subst h
+  apply store_deriv_wf p _ key hp hok'
+  split
+  · -- read-only parent, writable derivative: the clone is made read-only
+    have hs' : (bodyReadonly d.body).shape = p.body.shape := by
+      unfold bodyReadonly; split <;> simp [hs]
+    have hb := bodyReadonly_ok (h := false) hdb
+    simp only [derivOk, cloneBare, bare, Bool.and_eq_true, beq_iff_eq, List.isEmpty_nil, Bool.or_eq_true,
+      Bool.not_eq_true']
+    refine ⟨⟨⟨⟨⟨⟨?_, hs'⟩, ?_⟩, trivial⟩, trivial⟩, ?_⟩, hb⟩
+    · unfold bodyReadonly; split <;> simp [hf]
+    · unfold bodyReadonly; split <;> simp [hn']
+    · right; unfold bodyReadonly; split <;> simp_all
+  · rename_i hro
+    simp only [derivOk, cloneBare, bare, Bool.and_eq_true, beq_iff_eq, List.isEmpty_nil, Bool.or_eq_true,
+      Bool.not_eq_true']
+    refine ⟨⟨⟨⟨⟨⟨hf, hs⟩, hn'.symm⟩, trivial⟩, trivial⟩, ?_⟩, hdb⟩
+    simp only [cloneBare, bare, Bool.and_eq_true, Bool.not_eq_true', not_and, Bool.not_eq_false] at hro
+    cases hr : p.body.readonly
+    · exact Or.inl rfl
+    · exact Or.inr (hro hr)
 -- FULL (insert_deriv_wf): ∀ p d key ov r, WF p → WF d → insertDeriv p key d ov = some r → WF r
 -- (also when the derivative is converted by as_float and / or broadcast by broadcast_to, both of which go through
 -- `ctorCore`).  Not proved: it needs "the constructor recovers shape/numer/denom of a well-formed example"
